@@ -39,6 +39,18 @@ CLAIMED = {
          'Machine-checked proof (Lean 4) for EVERY request history (every identifier occurrence of a program in order, labels included) and every configuration (default, keep-all, any keep file): equal inputs get equal outputs, different inputs different outputs (also when one is kept), reserved/kept names are unchanged, generated names are never reserved, the short-name enumeration is injective for all ids, and the allocation loop always terminates within |reserved|+1 steps. Reserved-name tables are regenerated from lua.py/lexer.py. The factory is hand-modelled and tied to the code by differential execution on histories up to 5000 requests, all ids below 20,000/200,000, and by aligning name tokens of real luamin output with the input on generated programs.',
          'Trusted: Lean kernel; gen_tables.py; float division int(id/26) exact below 2^53 (stated, not proved); that every identifier occurrence goes through get_short_name is by the correspondence of the writer model (C01).',
          '5/C02'),
+ 'C06': ('Lean 4 proof: invariant over the lexer state machine (token texts cover the source, positions), re-escaping vs reference string grammar by induction with per-byte kernel-evaluated tables; correspondence with compiled model',
+         'Machine-checked proof (Lean 4) for EVERY source the lexer accepts as one chunk: the concatenation of the tokens\' source texts is the source (nothing dropped or duplicated), each token carries the line/column of its first character, and for every token but a quoted string the echo writer\'s text IS the source text; for EVERY byte string, quote kind and following text, the re-escaped spelling of a quoted string denotes exactly the same bytes under the reference string grammar and ends at its closing quote (so \\0 before a digit, \\xhh etc. cannot drift), and the lexer\'s string loop agrees with the reference grammar on every string of the dialect. Tied to lexer.py/lua.py by differential execution (generated programs, all string bodies up to length 3/4 over a 12-symbol alphabet, every byte in every escape form), with the Lean reference lexer as oracle on the real echo output and the writep8 path.',
+         'Trusted: Lean kernel; gen_tables.py (escape tables, matcher table); per-line chunking equivalence is C07.chunk_independent (tested, see C07); correspondence is testing.',
+         '5/C06'),
+ 'C19': ('Lean 4 proof: induction over the token list with the writer state generalised (header scan), join lemma, lexer read-back lemmas for line and block comments; correspondence with compiled model',
+         'Machine-checked proof (Lean 4) for EVERY token list and configuration: the luamin output begins with the first two comments that precede any code, verbatim, each followed by a line feed; a kept comment followed by that line feed reads back under the reference grammar as exactly that comment and a newline whatever follows (so title and byline survive); once two header comments were kept or code was seen a comment token produces no output and leaves the writer state unchanged. The clause "code never turns into a comment" is C01\'s re-lex statement; here it is additionally checked on every generated case by re-lexing the real output with the Lean reference lexer.',
+         'Trusted: Lean kernel; hand model of LuaMinifyTokenWriter; correspondence is testing.',
+         '5/C19'),
+ 'C08': ('Lean 4 proof: generic grammar interpreter (mirrors _accept/_expect/node spans/chains/short-if fence); coverage and fence theorems by induction on fuel for EVERY grammar, read at picotool\'s grammar transcription; tree+span correspondence with compiled model',
+         'Machine-checked proof (Lean 4), for every grammar and token array: a successful parse returns trees whose leaves in order are exactly the significant tokens of the consumed range (nothing skipped or used twice, operators and operands in source order); every construct restores the short-if limit it found (so a nested short-if cannot lift the outer one\'s), and the body of every short-if invocation, at any nesting, lies before the first newline token after its condition. picotool\'s parser is transcribed as grammar data and tied to parser.py by comparing full trees with all (start,end) spans on generated and malformed programs; statement kinds/extents are checked against the generator\'s own structure. PARTIAL: that every dialect program is accepted to its last token is tested, not proved.',
+         'Trusted: Lean kernel; the grammar transcription (correspondence-tested); gen_tables.py operator tables. Known model gap: empty parentheses `x=()` (malformed input) are a parse error in the model.',
+         '5/C08'),
 }
 NOT_YET = 'check not built yet in this round (framework under construction); will be claimed when its Lean model, theorems and correspondence run'
 
